@@ -544,9 +544,9 @@ type checkDef struct {
 	property string
 	level    string
 	race     bool
-	// freshProcess: every job of the sweep gets a worker process of its own
-	// (C15: a race on process-wide state that is initialised lazily shows
-	// only among the first uses in a process)
+	// freshProcess: a worker process serves four jobs only, so a quarter of
+	// the jobs start in a fresh process (C15: a race on process-wide state
+	// that is initialised lazily shows only among the first uses in a process)
 	freshProcess bool
 	selftest     bool
 	env      []string
@@ -678,6 +678,7 @@ func sweep(bin string, def *checkDef, check, tier string, baseSeed uint64, cfg t
 			live[wi] = w
 			mu.Unlock()
 			defer func() { w.stop() }()
+			jobsInProcess := 0
 			for {
 				mu.Lock()
 				if stop || next >= cfg.runs || time.Now().After(deadline) {
@@ -694,7 +695,11 @@ func sweep(bin string, def *checkDef, check, tier string, baseSeed uint64, cfg t
 				}
 				job := &Job{ID: i, Check: jcheck, Tier: tier, Seed: seedFor(baseSeed, i+jobOffset), Trace: wantSample}
 				r := w.do(job, timeout)
-				if def.freshProcess && !w.dead {
+				jobsInProcess++
+				if def.freshProcess && !w.dead && jobsInProcess >= 4 {
+					// every fourth job starts a fresh process (a fresh process per
+					// job cost a third of the runs of a quick sweep)
+					jobsInProcess = 0
 					w.stop()
 					w = startWorker(bin)
 					mu.Lock()
